@@ -115,7 +115,7 @@ Definition key_body (v:value) : Comp value :=
   | VDict d => ks <- map_call PKey (map snd d) ;; Ret (VDict (combine (map fst d) ks))
   | VIO (IOPrint s) => Ret x
   | VIO (IOReturn w) => k <- call (PKey w) ;; Ret (VIO (IOReturn k))
-  | VIO (IOBind sp _ _ _ argv) => ks <- map_call PKey argv ;; Ret (VIO (IOBind sp VNil (EBool true) None ks))
+  | VIO (IOBind sp m f h argv) => ks <- map_call PKey argv ;; Ret (VIO (IOBind sp m f h ks))      (* the action itself, its arguments replaced by their keys: comparable and still executable *)
   | _ => Ret x end.
 
 Definition doio_body (v:value) : Comp value :=
